@@ -776,8 +776,20 @@ func checkLDAPVerdict(c *km.Ctx, s *km.Sem, pa, upd *ssa.Function) {
 	for _, l := range ldapCalls {
 		la := km.CallArgs(l.Common())
 		bindOK := false
-		if bc, ok := km.Unwrap(la[1]).(*ssa.Call); ok && km.CalleeFull(bc.Common()) == ldapPkg+".convertToBindDN" && tagOf(bc.Common().Args[0]) == "user" {
+		isBindDN := func(v ssa.Value) bool {
+			bc, ok := km.Unwrap(v).(*ssa.Call)
+			return ok && km.CalleeFull(bc.Common()) == ldapPkg+".convertToBindDN" && tagOf(bc.Common().Args[0]) == "user"
+		}
+		if isBindDN(la[1]) {
 			bindOK = true
+		} else if elems, known := localSliceElems(la[1]); known && len(elems) > 0 {
+			// the bind DNs computed once, before the loop over the servers: every element of the list is one
+			bindOK = true
+			for _, e := range elems {
+				if !isBindDN(e) {
+					bindOK = false
+				}
+			}
 		}
 		pwOK := tagOf(la[2]) == "password"
 		r.Add("R-C07-1", km.FuncName(l.Parent()), "directory asked about the submitted credentials", posOf(c, l), "bind DN built from the submitted user; password is the submitted password", sprintf("bindDN-from-user=%v password=%v", bindOK, pwOK), bindOK && pwOK)
